@@ -8,8 +8,10 @@ import (
 	"runtime"
 	"strings"
 	"sync"
+	"sync/atomic"
 	"time"
 
+	"github.com/hashicorp/go-hclog"
 	"github.com/jimlambrt/gldap"
 )
 
@@ -28,13 +30,17 @@ type c08Stream struct{ prop string }
 func (s c08Stream) Name() string             { return "c08" }
 func (c08Stream) CaseTimeout() time.Duration { return 90 * time.Second }
 func (c08Stream) Rule() string {
-	return "K connections (1..12; plain / TLS / StartTLS) opened in two waves (reconnects after earlier ones closed), each tagged by the client, each with an in-flight state (no handler / two handlers blocked until after the ending / two handlers writing large results / two handlers just spawned when the ending arrives in the same TCP segment / one of two handlers panicking on its request goroutine) and an ending (client close, RST, Unbind, malformed frame, unsupported operation, mid-frame disconnect, read timeout, recovered panic in an inline handler, server Stop), many ending concurrently; oracle: exactly one OnClose per accepted connection carrying the ConnectionID its requests saw, after the exit of every handler of that connection; the client sees the socket closed; all ConnectionIDs positive, stable and pairwise distinct over the server's life; goroutine and descriptor counts return to the baseline; trace replayed through the connection automaton; non-trivial = at least one connection with handlers in flight at its ending, distinct by scenario"
+	return "K connections (1..12; plain / TLS / StartTLS) opened in two waves (reconnects after earlier ones closed), each tagged by the client, each with an in-flight state (no handler / two handlers blocked until after the ending / two handlers writing large results / two handlers just spawned when the ending arrives in the same TCP segment / one of two handlers panicking on its request goroutine) and an ending (client close, RST, Unbind, malformed frame, unsupported operation, mid-frame disconnect, read timeout, recovered panic in an inline handler, server Stop), many ending concurrently; plus (from 40 cases up) one churn scenario: an early connection stays open while 70000 short connections come and go, then 40 more bind; oracle: exactly one OnClose per accepted connection carrying the ConnectionID its requests saw, after the exit of every handler of that connection; the client sees the socket closed; all ConnectionIDs positive, stable and pairwise distinct over the server's life; goroutine and descriptor counts return to the baseline; trace replayed through the connection automaton; non-trivial = at least one connection with handlers in flight at its ending, distinct by scenario"
 }
 
 var c08Endings = []string{"close", "rst", "unbind", "malformed", "unsupported", "midframe", "timeout", "panic", "stop"}
 
 func (c08Stream) Generate(rng *rand.Rand, n int, thorough bool) []Case {
 	var cs []Case
+	if n >= 40 {
+		// a long server lifetime: more accepts than fit in 16 bits while one early connection stays open
+		cs = append(cs, Case{Line: fmt.Sprintf("c08 conns=70000 ending=churn inflight=none mode=plain seed=%d", rng.Intn(1<<30)), Kind: "churn"})
+	}
 	for len(cs) < n {
 		k := []int{1, 2, 3, 6, 12}[rng.Intn(5)]
 		ending := c08Endings[rng.Intn(len(c08Endings))]
@@ -47,8 +53,141 @@ func (c08Stream) Generate(rng *rand.Rand, n int, thorough bool) []Case {
 	return cs
 }
 
+// churn: one connection opened first stays open while `total` short connections come and go (every 997th of them
+// sends a bind); then 40 more connections bind. Every ConnectionID a request saw must be positive and pairwise
+// distinct - the early connection's included - and OnClose must report every id exactly once.
+func c08Churn(total int) string {
+	var mu sync.Mutex
+	tagConn := map[string][]int{}
+	onClose := map[int]int{}
+	var closed int64
+	h := func(w *gldap.ResponseWriter, r *gldap.Request) {
+		if m, ok := r.VerifMessage().(*gldap.SimpleBindMessage); ok {
+			mu.Lock()
+			tagConn[m.UserName] = append(tagConn[m.UserName], r.ConnectionID())
+			mu.Unlock()
+		}
+		answer(w, r)
+	}
+	curTracer.Store(nil)
+	srv, err := gldap.NewServer(gldap.WithLogger(hclog.NewNullLogger()), gldap.WithOnClose(func(id int) {
+		mu.Lock()
+		onClose[id]++
+		mu.Unlock()
+		atomic.AddInt64(&closed, 1)
+	}))
+	if err != nil {
+		return "harness-error " + err.Error()
+	}
+	_ = srv.Router(allRoutes(h, nil, nil))
+	addr := freeAddr()
+	runErr := make(chan error, 1)
+	go func() { runErr <- srv.Run(addr) }()
+	for i := 0; !srv.Ready(); i++ {
+		if i > 5000 {
+			return "harness-error server not ready"
+		}
+		time.Sleep(time.Millisecond)
+	}
+	bind := func(tag string) (*rawClient, string) {
+		cl, err := dialRaw(addr, nil)
+		if err != nil {
+			return nil, "harness-error dial: " + err.Error()
+		}
+		_ = cl.send(Seq(Int(2, 1), C(1, 0, Int(2, 3), Oct(tag), P(2, 0, []byte("pw")))).Ser())
+		if _, err := cl.readFrame(10 * time.Second); err != nil {
+			cl.close()
+			return nil, "harness-error bind response: " + err.Error()
+		}
+		return cl, ""
+	}
+	first, e := bind("cn=first")
+	if e != "" {
+		return e
+	}
+	defer first.close()
+	opened := int64(0)
+	for i := 0; i < total; i++ {
+		for opened-atomic.LoadInt64(&closed) > 200 {
+			time.Sleep(50 * time.Microsecond) // do not outrun the accept loop
+		}
+		if i%997 == 0 {
+			cl, e := bind(fmt.Sprintf("cn=churn%d", i))
+			if e != "" {
+				return e
+			}
+			cl.close()
+		} else {
+			c, err := net.DialTimeout("tcp", addr, 5*time.Second)
+			if err != nil {
+				return "harness-error dial: " + err.Error()
+			}
+			c.Close()
+		}
+		opened++
+	}
+	var late []*rawClient
+	for i := 0; i < 40; i++ {
+		cl, e := bind(fmt.Sprintf("cn=late%d", i))
+		if e != "" {
+			return e
+		}
+		late = append(late, cl)
+	}
+	// the early connection still works and still reports its id
+	_ = first.send(Seq(Int(2, 2), C(1, 0, Int(2, 3), Oct("cn=first"), P(2, 0, []byte("pw")))).Ser())
+	if _, err := first.readFrame(10 * time.Second); err != nil {
+		return "the connection opened first no longer answers: " + err.Error()
+	}
+	for _, cl := range late {
+		cl.close()
+	}
+	first.close()
+	deadline := time.Now().Add(20 * time.Second)
+	for atomic.LoadInt64(&closed) < opened+41 && time.Now().Before(deadline) {
+		time.Sleep(time.Millisecond)
+	}
+	verdict := "ok"
+	mu.Lock()
+	seen := map[int]string{}
+	for tag, ids := range tagConn {
+		for _, id := range ids {
+			if id != ids[0] {
+				verdict = fmt.Sprintf("requests of client %s report different ConnectionIDs %d and %d", tag, ids[0], id)
+			}
+		}
+		id := ids[0]
+		if id <= 0 {
+			verdict = fmt.Sprintf("ConnectionID %d of client %s is not positive", id, tag)
+		}
+		if other, dup := seen[id]; dup {
+			verdict = fmt.Sprintf("ConnectionID %d shared by clients %s and %s (after %d accepted connections)", id, other, tag, total)
+		}
+		seen[id] = tag
+	}
+	for id, n := range onClose {
+		if n != 1 && verdict == "ok" {
+			verdict = fmt.Sprintf("OnClose called %d times for connection id %d over %d connections", n, id, total)
+		}
+	}
+	if verdict == "ok" && int64(len(onClose)) != opened+41 {
+		verdict = fmt.Sprintf("OnClose called for %d distinct ids, %d connections were accepted", len(onClose), opened+41)
+	}
+	mu.Unlock()
+	stopped := make(chan struct{})
+	go func() { _ = srv.Stop(); close(stopped) }()
+	select {
+	case <-stopped:
+	case <-time.After(10 * time.Second):
+	}
+	return verdict
+}
+
 func (c08Stream) Impl(c Case) string {
 	p := kv(c.Line)
+	if p["ending"] == "churn" {
+		return c08Churn(atoi(p["conns"])) + "\t"
+	}
 	k, ending, inflight, mode := atoi(p["conns"]), p["ending"], p["inflight"], p["mode"]
 	rng := rand.New(rand.NewSource(int64(atoi(p["seed"]))))
 	tlsConfigs()
